@@ -24,8 +24,8 @@ CLAIMED = {
         note="Assumes as C01/C15. SearchRes/DescriptionRes are NOT covered deductively (friendly name passes through the charmap codec, an assumed contract without an inverse): a BOUNDED stand-in executes their round trip on the real code for names of every length 0..29, 0..20 families (not exhaustive). ConnRes: the decoder does not read the 4-byte connection response data block, so the lemma states only the fields it reads. Payload length 255 rather than 254 is allowed by the lemma precondition (the code accepts it).",
         ref="§3 C02"),
     "C06": dict(
-        text="Proof, by one generated lemma per registered type (152 types; statement taken from the property: Unpack(b) ok ==> Unpack(Pack(v)) ok with the same value, plus byte identity of the re-encoding for the exact integer, bit-field, enumeration, character and IEEE formats), verified against the real Pack/Unpack bodies ('exact' mode) for every payload of every length. For the 20 two-octet float types 9.xxx the round trip is decided by exhaustive execution of the real code over all 65,536 payloads of each type (complete, labelled bounded stand-in; per-exponent deductive slices of the codec run in the thorough tier). For 16.000/16.001 only a BOUNDED stand-in exists.",
-        note="Assumes as C08. BOUNDED: 16.000/16.001 (two adjacent octets over all values at every position, three fill patterns) - not a proof; 9.xxx exhaustive over the complete 2^16 domain per type but by execution, not by a discharged obligation. Thorough tier adds lemmaF16rt_e0..e15 (deductive round trip of packF16/unpackF16 per exponent, bit-precise FloatingPoint theory, up to 25 min each).",
+        text="Proof, by one generated lemma per registered type (152 types; statement taken from the property: Unpack(b) ok ==> Unpack(Pack(v)) ok with the same value, plus byte identity of the re-encoding for the exact integer, bit-field, enumeration, character and IEEE formats), verified against the real Pack/Unpack bodies ('exact' mode) for every payload of every length. For the 20 two-octet float types 9.xxx the round trip is decided by exhaustive execution of the real code over all 65,536 payloads of each type (complete, labelled bounded stand-in). For 16.000/16.001 only a BOUNDED stand-in exists.",
+        note="Assumes as C08. BOUNDED: 16.000/16.001 (two adjacent octets over all values at every position, three fill patterns) - not a proof; 9.xxx exhaustive over the complete 2^16 domain per type but by execution, not by a discharged obligation. A deductive round-trip proof of packF16/unpackF16 per exponent was measured (exponent 0: 225 obligations in 16m40s; exponent 12: no answer within 1000 s) and is not part of any tier.",
         ref="§3 C06"),
     "C07": dict(
         text="Proof, by one generated lemma per numeric/string datapoint type, that every encoding has the prescribed fixed length and leading zero octet (or 6-bit single octet) and is accepted by the type's own decoder; exactness for the integer formats; saturation (no wrap, no sign change) and one-step accuracy for 5.001, 5.003, 8.003, 8.004, 8.010 in bit-precise float arithmetic; 17.001/18.001 field clamps; monotonicity lemmas for the five scaled types (thorough tier). packF16 (format, zero, loop bounds), roundF16, unpackF16 and the 16.xxx encoders are under their own contracts. For the 9.xxx types accuracy, monotonicity, saturation and self-decodability of the shared codec are decided by exhaustive execution of the real packF16/unpackF16 over every non-NaN float32 (labelled bounded stand-in; per type over every float32 in the thorough tier).",
